@@ -18,7 +18,7 @@ func init() {
 func init() {
 	props["C18"] = PropSpec{Title: "Rendering a document template changes only its placeholders", Explanation: "tmp", Rules: []Rule{{"clone-cover/map/pure", "template clone functions copy every field", ruleCloneDocument}}}
 	props["C14"] = PropSpec{Title: "Style inheritance", Explanation: "tmp", Rules: []Rule{{"clone", "style clone", ruleCloneStyle}, {"merge", "m", ruleMerge}, {"recur", "r", ruleRecurGuard}, {"noreg", "n", ruleNoRegistryWrite}}}
-	props["C09"] = PropSpec{Title: "Tables", Explanation: "tmp", Rules: []Rule{{"copy", "CopyTable", ruleCopyTable}}}
+	props["C09"] = PropSpec{Title: "Tables", Explanation: "tmp", Rules: []Rule{{"copy", "CopyTable", ruleCopyTable}, {"err-atomic", "e", ruleErrAtomicTable}, {"index-adeq", "i", ruleIndexAdeq}, {"nil-guard", "n", ruleNilGuardGrid}}}
 }
 
 func init() {
@@ -39,4 +39,9 @@ func init() {
 func init() {
 	props["C07"] = PropSpec{Title: "indep", Explanation: "tmp", Rules: []Rule{{"global-state", "f", func(r *Run) { ruleGlobalState(r, nil) }}}}
 	props["C17"] = PropSpec{Title: "pure", Explanation: "tmp", Rules: []Rule{{"lock", "f", ruleLock}, {"publish", "p", rulePublishImmut}, {"render-pure", "p", ruleRenderPure}}}
+}
+
+func init() {
+	props["C08"] = PropSpec{Title: "body", Explanation: "tmp", Rules: []Rule{{"body-write", "f", ruleBodyWrite}, {"err-atomic", "p", ruleErrAtomicRemove}, {"sectpr-last", "p", ruleSectPrLast}}}
+	props["C12"] = PropSpec{Title: "page", Explanation: "tmp", Rules: []Rule{{"err-atomic", "p", ruleErrAtomicPage}}}
 }
